@@ -610,6 +610,8 @@ class Interp:
             return [("c", x) for x in it[1]]
         if it[0] == "c" and isinstance(it[1], dict):
             return [("c", x) for x in it[1]]
+        if it[0] == "c" and isinstance(it[1], (str, bytes, bytearray)) and len(it[1]) <= 4096:
+            return [("c", x) for x in it[1]]
         if it[0] == "items" and not it[2]:
             return [("list", [("c", k), v]) for k, v in it[1].items()]
         return None
@@ -1284,6 +1286,8 @@ class Interp:
             if name == "__name__":
                 return ("c", c.name)
             return ("fn", "%s.%s" % (c.name, name), [])
+        if k == "c" and name == "__class__":
+            return ("ext", type(b[1]).__name__, [])
         if k == "c":
             if b[1] is None and not name.startswith("__"):
                 # attribute of None: decided when it is called or used; a plain read raises
@@ -1427,6 +1431,18 @@ class Interp:
                 names = [x[1] for x in cs]
                 return ("c", type(vc[1]).__name__ in names)
             return ("c", self.free("isinstance(%s)" % unparse(e)))
+        if name == "issubclass" and len(args) == 2:
+            sub, sup = args
+            sups = sup[1] if sup[0] == "list" else [sup]
+            if sub[0] == "cls" and all(x[0] == "cls" for x in sups):
+                return ("c", any(x[1] in self.repo.mro(sub[1]) for x in sups))
+            if sub[0] == "cls" and all(x[0] in ("cls", "ext") for x in sups):
+                exts = {b.split(".")[-1] for k_ in self.repo.mro(sub[1]) for b in k_.ext_bases}
+                return ("c", any((x[0] == "cls" and x[1] in self.repo.mro(sub[1])) or (x[0] == "ext" and x[1].split(".")[-1] in exts) for x in sups))
+            if sub[0] == "c":
+                raise _Raise(("ext", "TypeError", []), "TypeError: issubclass() arg 1 must be a class")
+            if sub[0] == "ext" and not sub[2] and all(x[0] == "cls" for x in sups):
+                return ("c", False)           # a builtin / library type is no subclass of a class of this repository
         if name == "len" and a0 is not None:
             if a0[0] == "list" and not (len(a0) > 2 and a0[2]):
                 return ("c", len(a0[1]))
@@ -1479,8 +1495,12 @@ class Interp:
         if name == "type" and len(args) == 1:
             if a0[0] == "obj":
                 return ("cls", a0[1].cls)
+            if a0[0] == "list" and len(a0) > 3 and a0[3] == "tuple":
+                return ("ext", "tuple", [])
             if a0[0] in ("list", "dict"):
                 return ("ext", a0[0], [])
+            if a0[0] == "cls":
+                return ("ext", "type", [])
             ac = self.concrete(a0) if a0[0] == "atom" else a0
             if ac[0] == "c":
                 return ("ext", type(ac[1]).__name__, [])
@@ -1499,7 +1519,7 @@ class Interp:
         if name == "range" and args and all(a[0] == "c" and isinstance(a[1], int) for a in args):
             try:
                 r = range(*[a[1] for a in args])
-                if len(r) <= 64:
+                if len(r) <= 1024:
                     return ("list", [("c", i) for i in r])
             except Exception:
                 pass
@@ -1520,6 +1540,10 @@ class Interp:
             items = self.iterate(a0)
             if items is not None and all(x[0] == "c" for x in items):
                 return ("c", (any if name == "any" else all)(bool(x[1]) for x in items))
+        if name == "map" and len(args) == 2 and args[0][0] in ("closure", "bound", "clsmethod", "cls"):
+            items = self.iterate(args[1])
+            if items is not None and len(items) <= 4096:
+                return ("list", [self.apply(args[0], [x], {}, env, depth + 1, e) for x in items])
         if name in ("range", "enumerate", "zip", "map", "filter", "iter", "min", "max", "sum", "any", "all"):
             return ("fn", name, list(args))
         if name == "print":
@@ -1690,6 +1714,17 @@ class Interp:
             raise _Raise(("ext", "AttributeError", []), "AttributeError: 'NoneType' object has no attribute %r" % name)
         if k in ("c", "atom"):
             rc = recv
+            def _py(a):
+                """python value of a closed abstract list / dict of constants (so that str.join / str.translate can run)"""
+                if a[0] == "c":
+                    return a
+                if a[0] == "list" and not (len(a) > 2 and a[2]) and all(x[0] == "c" for x in a[1]):
+                    return ("c", [x[1] for x in a[1]])
+                if a[0] == "dict" and not (len(a) > 2 and a[2]) and all(not (isinstance(k_, tuple) and k_ and k_[0] == "dyn") and v_[0] == "c" for k_, v_ in a[1].items()):
+                    return ("c", {k_: v_[1] for k_, v_ in a[1].items()})
+                return a
+            if k == "c" and name in ("join", "translate", "format", "startswith", "endswith"):
+                args = [_py(a) for a in args]
             if k == "c" and all(a[0] == "c" for a in args) and not kwargs:
                 try:
                     r = getattr(rc[1], name)(*[a[1] for a in args])
